@@ -640,6 +640,47 @@ fn general_scales(w: u32, rng: &mut Rng, count: usize) -> Vec<u128> {
     v
 }
 
+/// one context with several truncations of one operand type by different powers of two (and a
+/// chained one): each division must use its own divisor (instantiations are cached per operation
+/// and argument types)
+fn run_several_scales(st: ScalarType, ks: &[u32], owner: &IOStatus, rng: &mut Rng, out: &mut Out) {
+    let w = width(st);
+    let t = array_type(vec![3], st);
+    let (t2, ks2) = (t.clone(), ks.to_vec());
+    let desc = json!({"st": scalar(st), "ks": ks, "owner": owner_name(owner)});
+    let ctx = observe_u(move || {
+        let c = simple_context(|g| {
+            let i = g.input(t2.clone())?;
+            let mut outs = vec![];
+            for k in ks2.iter() { outs.push(g.truncate(i.clone(), 1u128 << k)?); }
+            // chained: (x >> k0) >> k1
+            outs.push(g.truncate(outs[0].clone(), 1u128 << ks2[ks2.len() - 1])?);
+            g.create_tuple(outs)
+        })?;
+        let cfg = InlineConfig { default_mode: InlineMode::Simple, ..Default::default() };
+        Ok(prepare_for_mpc_evaluation(&c, vec![vec![owner.clone()]], vec![vec![IOStatus::Party(0)]], cfg)?.get_context())
+    });
+    let ctx = match ctx { Outcome::Ok(c) => c, _ => { out.violation("several-scales-compile-fails", desc, "a context with several truncations does not compile".into()); return; } };
+    for _ in 0..3 {
+        // small operands (the protocol's failure probability |x| / 2^w is negligible)
+        let xs: Vec<u128> = (0..3).map(|_| { let x = rng.below(1 << 20) as u128; if st.is_signed() && rng.chance(1, 2) { x.wrapping_neg() & mask(w) } else { x } }).collect();
+        let input = match owner { IOStatus::Shared => { let a: Vec<u128> = (0..3).map(|_| rng.u128() & mask(w)).collect(); let b: Vec<u128> = (0..3).map(|_| rng.u128() & mask(w)).collect(); let c: Vec<u128> = (0..3).map(|i| xs[i].wrapping_sub(a[i]).wrapping_sub(b[i]) & mask(w)).collect(); Value::from_vector(vec![value_of(&a, &t).unwrap(), value_of(&b, &t).unwrap(), value_of(&c, &t).unwrap()]) } _ => value_of(&xs, &t).unwrap() };
+        let (c2, seed) = (ctx.clone(), seed16(rng));
+        let r = observe_u(move || ciphercore_base::evaluators::evaluate_simple_evaluator(c2.get_main_graph()?, vec![input], Some(seed)));
+        let v = match r { Outcome::Ok(v) => v, _ => { out.violation("several-scales-evaluation-fails", desc.clone(), "evaluation failed".into()); continue; } };
+        let comps = v.to_vector().unwrap_or_default();
+        let mut expect: Vec<(String, Vec<i128>)> = ks.iter().map(|k| (format!("2^{}", k), xs.iter().map(|x| floor_div_pow2(sval(w, st.is_signed(), *x), *k)).collect())).collect();
+        expect.push((format!("2^{} then 2^{}", ks[0], ks[ks.len() - 1]), xs.iter().map(|x| floor_div_pow2(floor_div_pow2(sval(w, st.is_signed(), *x), ks[0]), ks[ks.len() - 1])).collect()));
+        for (j, (name, ex)) in expect.iter().enumerate() {
+            let got = comps.get(j).and_then(|c| elems(c, &t).ok()).unwrap_or_default();
+            // each secure truncation returns floor or floor + 1; the chained one may add one more unit
+            let slack = if j + 1 == expect.len() { 2 } else { 1 };
+            let ok = got.len() == ex.len() && got.iter().zip(ex.iter()).all(|(g, e)| { let d = sval(w, st.is_signed(), *g) - e; d >= 0 && d <= slack });
+            if !ok { out.violation("several-scales-wrong-quotient", json!({"config": desc, "division": name, "x": zt(&xs)}), format!("got {:?} expected {:?} (+0..{})", got.iter().map(|g| sval(w, st.is_signed(), *g)).collect::<Vec<_>>(), ex, slack)); } else { out.oracle_ok(); }
+        }
+    }
+}
+
 pub fn run(tier: &str, seed: u64, out: &mut Out) {
     let mut rng = Rng::new(seed ^ 0xC05);
     let thorough = tier == "thorough" || tier == "search";
@@ -701,6 +742,15 @@ pub fn run(tier: &str, seed: u64, out: &mut Out) {
                 run_config(st, &shape, 1, &owner, &outs, 2, 0, &mut rng, out);
             }
         }
+    }
+    // ---- several power-of-two divisors in one context
+    for (i, &st) in [INT64, UINT64, INT32, UINT32].iter().enumerate() {
+        let sets: Vec<Vec<u32>> = if thorough { vec![vec![3, 7], vec![7, 3], vec![1, 2, 5], vec![10, 4]] } else { vec![vec![3, 7], vec![5, 2]] };
+        for (j, ks) in sets.iter().enumerate() {
+            out.stat("stream:several-scales");
+            run_several_scales(st, ks, &OWNERS[(i + j) % 4], &mut rng, out);
+        }
+        run_several_scales(st, &[4, 9], &IOStatus::Public, &mut rng, out);
     }
     // ---- plaintext evaluator
     run_plain(if thorough { 40 } else { 6 }, &mut rng, out);
